@@ -1852,7 +1852,38 @@ class Isometry(projective.Transformation, HyperbolicObject):
 
         """
         fixpoint_data = np.real(self._fixpoint_data(max_eigval))
-        return Point(fixpoint_data[..., 0, :])
+        fixpoint = fixpoint_data[..., 0, :]
+
+        # an elliptic isometry of H^n (n >= 3) has a repeated eigenvalue
+        # 1, and the basis numpy returns for that eigenspace need not
+        # contain a timelike vector. The spectral projection of the
+        # origin to the eigenspace does not depend on the basis, and is
+        # timelike whenever the eigenspace meets hyperbolic space.
+        interior, valid = self._interior_fixed_vector()
+        fixpoint = np.where(valid[..., np.newaxis], interior, fixpoint)
+
+        return Point(fixpoint)
+
+    def _interior_fixed_vector(self):
+        matrix = self.proj_data.swapaxes(-1, -2)
+        eigvals, eigvecs = utils.eig(matrix)
+
+        fixed = np.abs(eigvals - 1) < np.sqrt(ERROR_THRESHOLD)
+        projection = ((eigvecs * fixed[..., np.newaxis, :]) @
+                      np.linalg.pinv(eigvecs))
+
+        candidate = np.real(projection[..., 0])
+        image = np.squeeze(matrix @ candidate[..., np.newaxis], axis=-1)
+
+        with np.errstate(invalid="ignore"):
+            valid = (
+                np.isfinite(candidate).all(axis=-1) &
+                (utils.normsq(candidate, self.minkowski) < -ERROR_THRESHOLD) &
+                (np.abs(image - candidate).max(axis=-1) <
+                 ERROR_THRESHOLD * np.abs(candidate).max(axis=-1))
+            )
+
+        return candidate, valid
 
 
     @staticmethod
